@@ -24,6 +24,7 @@ pub mod rtsock;
 pub mod rtconn;
 pub mod rtprio;
 pub mod rttrap;
+pub mod rtgrow;
 pub mod hookproc;
 pub mod sched;
 pub mod sel;
@@ -49,6 +50,7 @@ pub static ALL: &[Comp] = &[
     Comp { name: "rtconn", gen: rtconn::gen, exec: rtconn::exec, isolate_ms: 15000 },
     Comp { name: "rtprio", gen: rtprio::gen, exec: rtprio::exec, isolate_ms: 15000 },
     Comp { name: "rttrap", gen: rttrap::gen, exec: rttrap::exec, isolate_ms: 20000 },
+    Comp { name: "rtgrow", gen: rtgrow::gen, exec: rtgrow::exec, isolate_ms: 20000 },
     Comp { name: "hookproc", gen: hookproc::gen, exec: hookproc::exec, isolate_ms: 12000 },
     Comp { name: "co", gen: co::gen, exec: co::exec, isolate_ms: 5000 },
     Comp { name: "local", gen: local::gen, exec: local::exec, isolate_ms: 5000 },
